@@ -495,6 +495,10 @@ fn corpus(cases: &mut Cases) {
         let qcmp = Q { keys: vec![(Ex::Cmp(">", Box::new(col(1)), Box::new(col(2))), false)], wher: None, limit: None, offset: None, extra_sel: vec![] };
         let db = realise(&tc, &rc);
         run_case(cases, &db, &tc, &[7], rc.batch_size, &qcmp, "corpus:orderby-nullable-cmp-key", "C05-orderby-nullable-expr-key");
+        // the same key with the NULL in the first partition only (reported by the C12 owner)
+        let rc2 = Realisation { bounds: vec![0, 4, 7], flush: vec![true, false], ..r.clone() };
+        let db = realise(&tc, &rc2);
+        run_case(cases, &db, &tc, &[4, 3], rc2.batch_size, &qcmp, "corpus:orderby-bool-key-mixed-nullability", "C05-orderby-bool-key-mixed-nullability");
     }
     for (class, q) in &qc { let db = realise(&t, &r); run_case(cases, &db, &t, &[8], r.batch_size, q, class, "C05-order-by-constant"); }
 }
